@@ -36,6 +36,15 @@ theorem cselect_nil (r : L4) (c : Nat) (u v : Option L4) (h : u = none ∨ v = n
 its operands: the generated definition reads `u` and `v` before `out` is bound, whatever `out` aliases) -/
 theorem cmove_wrapper_tied (c : Nat) (u v : L4) : FiatScalar.cMove c u v = FiatScalar.selectznz c u v := rfl
 
+/-- `Equal`, `LessOrEqual`, `IsZero`, `IsOne`, `CSelect` of `scalar.go`, regenerated from their Go bodies on every run, are the
+model the theorems above are about (nil operands and the error value included) -/
+theorem api_methods_tied (s t : L4) (ot ou ov : Option L4) (c : Nat) :
+    GenScalarAPI.equal s ot = Hand.Scalar.equal s ot ∧ GenScalarAPI.lessOrEqual s t = Hand.Scalar.lessOrEqual s t ∧
+    GenScalarAPI.isZero s = Hand.Scalar.isZero s ∧ GenScalarAPI.isOne s = Hand.Scalar.isOne s ∧
+    GenScalarAPI.cSelect s c ou ov =
+      ((Hand.Scalar.cselect s c ou ov).2, (Hand.Scalar.cselect s c ou ov).1.map ScalarApiTies.errName) :=
+  ⟨ScalarApiTies.equal_tie s ot, rfl, rfl, rfl, ScalarApiTies.cselect_tie s c ou ov⟩
+
 example : sOk Hand.Scalar.minusOne ∧ sOk FiatScalar.setOne := ⟨⟨by decide, by decide⟩, ⟨by decide, by decide⟩⟩
 
 end C13
